@@ -628,7 +628,7 @@ def gen_kwargs(rng, keys):
                                     (1, {"d": [[{"s": "q"}, {"i": 1}]]}), (1, {"t": [{"i": 1}, {"i": 2}]})])] for k in keys]
 
 
-def gen_case(rng, quant=True):
+def gen_case(rng, stress=0.3):
     fmt = rng.choice(FMTS)
     kw = rng.chance(0.5)
     mode = rng.wchoice([(3, "not"), (3, "single"), (4, "row"), (5, "col")])
@@ -639,12 +639,18 @@ def gen_case(rng, quant=True):
     ncalls = rng.wchoice([(3, 1), (3, 2), (2, 3)])
     keys = rng.sample(["k", "info", "z", "n_obs", "a"] + (["pmf"] if rng.chance(0.1) else []), rng.wchoice([(1, 0), (3, 1), (2, 2), (1, 3)])) if kw else []
     pmf_style = rng.wchoice([(3, "onehot_int"), (1, "onehot_flt"), (1, "mixed01"), (4, "dyadic")])
-    if rng.chance(0.3):
+    if rng.chance(stress):
         # the heart of the disambiguation: answers whose items are 0/1-like next to action sets containing 0/1-like values
         fmt = rng.wchoice([(6, "PM"), (2, "A"), (2, "AP"), (1, "dPM")])
         kind = rng.choice(["int01", "mixint", "bool", "flt01", "fltmix", "onehot_t", "onehot_l", "lst2", "tup2", "fltp"])
         K = rng.wchoice([(1, 1), (6, 2), (3, 3)])
         pmf_style = rng.wchoice([(5, "onehot_int"), (2, "mixed01"), (1, "onehot_flt"), (2, "dyadic")])
+    if rng.chance(0.04):
+        # row-major bare sparse actions with different feature names per action (recorded defect C15-F4)
+        fmt, kw, kind = "A", False, "sparse1h"
+        mode = rng.choice(["row", "single"])
+        batch, layout = True, mode
+        K = rng.wchoice([(3, 2), (3, 3), (1, 4)])
     case = {"seed": rng.wchoice([(2, None), (3, rng.randint(0, 50)), (1, rng.randint(-2 ** 31, 2 ** 40))]),
             "fmt": fmt, "kw": kw, "layout": layout, "batch": batch,
             "wrap": rng.choice(["tuple", "list"]), "pmf_type": rng.wchoice([(3, "list"), (1, "tuple")]),
@@ -761,22 +767,29 @@ class C15(Property):
     quick_n, thorough_n, search_n = 6000, 150000, 4000
     case_timeout = 60
     workers = 8
-    rule = ("one scripted learner per case answering 1-3 predict calls consistently in one of 6 formats x +-kwargs x {unbatched, batched answered "
-            "row-major / column-major / by a learner that cannot handle batches}; 20 kinds of action sets (ints incl. 0/1, bools, probability-like "
-            "floats, strings, one-hot tuples/lists, 1-3 item tuples, sparse dicts, mixed) of 1-5 actions; batch sizes 1-4 biased to the number of "
-            "actions and the number of answer columns (square case); PMFs one-hot int/float or dyadic; 15% of cases are outside the quantifier "
-            "(copies/aliases of offered objects, malformed PMFs, hint-named features) and are checked by (A) only; "
-            "non-trivial = the real code returned a result for every call of an in-quantifier case with >= 2 rows overall or a PMF draw")
+    rule = ("one scripted learner (harness/props/c15_learners.py) per case answering 1-3 predict calls consistently in one of 6 formats x +-kwargs x "
+            "{unbatched, batched answered row-major / column-major / by a learner that cannot handle batches (raises, returns None, KeyError)}; "
+            "20 kinds of action sets (ints incl. 0/1, bools, probability-like floats, 0.0/1.0, strings, one-hot tuples/lists, 1-3 item tuples, "
+            "sparse dicts with equal/different feature names, mixed) of 1-5 actions, also changing / equal-but-retyped between calls; batch sizes 1-4 "
+            "biased to the number of actions and of answer columns (square case); PMFs one-hot int/float/mixed or dyadic (exact float sums); "
+            "30% of cases stress 0/1-like answers next to 0/1-like action sets; 35% also run through SequentialCB.evaluate; 15% of cases are outside "
+            "the quantifier (copies/aliases of offered objects, malformed PMFs, hint-named features) and are checked by (A) only. "
+            "non-trivial = in-quantifier case for which the real code returned a result for every call, with >= 2 rows overall or a PMF draw; "
+            "distinct by canonical JSON of the case")
     trusted_base = [
-        "CPython object identity: the harness numbers the objects the learner receives/returns by id(); ints in [-5,256], bools and None are compared by value by `is` in the model",
+        "CPython object identity: the harness numbers the objects the learner receives/returns by id(); ints in [-5,256], bools and None are compared by value by `is` in the model (small-int interning)",
         "coba.random.CobaRandom.choicew is the C05 model (finished property C05); PMF entries are dyadic so float sums are exact rationals",
         "isclose(sum,1,abs_tol=.001) modelled as |sum-1| <= 1/1000 (generated sums are exactly 1 or off by >= 1/16)",
         "dict keys are strings (sparse features, kwargs, hints); numpy/torch answers and batches are excluded",
+        "which of the four proposed repairs the code under test contains is decided by four behavioural probes (variant()); the Lean model has the same four switches (Fixes)",
     ]
     assumptions = ["the learner is a function of (context, actions): the same row is answered the same way in batch, per-row and probe calls",
                    "a SafeLearner is used either always batched or never (as an evaluator does)",
-                   "kwargs of the rows of one batch have the same keys"]
-    partial_theorems = {}
+                   "kwargs of the rows of one batch have the same keys (theorems: in the same order); kwargs keys are not named action/action_prob/pmf",
+                   "un-hinted column-major answers: not a single column for a single-row first batch, PMFs over >= 2 actions (design limits, see ambiguity_characterised and notes)"]
+    partial_theorems = {"format_roundtrip_pinned_partial": "the pinned commit violates the property in the regions of the recorded defects C15-F1..F4 "
+                        "(excluded by the fx=Fixes.none disjuncts of firstRowOK / dictRowsOK / colParseOK and, for C15-F2, by the float-copy premise of "
+                        "pmf_entry_fresh); format_roundtrip is the full-strength theorem for the code with fixes/C15-*.diff applied"}
 
     # ---- cases
     def generate(self, rng, tier):
@@ -785,7 +798,8 @@ class C15(Property):
         return gen_case(rng)
 
     def search(self, rng, tier):
-        return gen_case(rng)
+        # in-quantifier learners only ((B) is the only check the search runs), biased to the identity-sensitive combinations
+        return gen_case(rng, stress=0.6)
 
     def corpus(self):
         return corpus_cases()
@@ -894,14 +908,17 @@ class C15(Property):
             d2 = outcomes_differ(impl, outcome_model(ans["scripted"]))
             if d2 and not d:
                 fails.append(F("A", "%s: SafeLearner.predict differs from the model run on the Lean scripted learner: %s" % (name, d2), "A:scripted:" + name))
-            if inq and "expected" in ans:
-                self.check_c(case, ans, fails, name)
+            if "hyp" in ans:
+                tags.append("hyp:%s/%s" % ("T" if ans["hyp"] else "F", "inq" if inq else "out"))
+                self.check_c(case, ans, fails, name, inq)
         return {"recorded": mrec, "layout": [r.get("layout") for r in ans["recorded"]], "fmt": [r.get("fmt") for r in ans["recorded"]]}
 
-    def check_c(self, case, ans, fails, name):
-        if ans.get("hyp") and not ans.get("holds"):
+    def check_c(self, case, ans, fails, name, inq):
+        """(C) run-time sanity check of format_roundtrip_*: whenever the hypotheses hold for a call, the model delivers the spec"""
+        if not ans.get("holds"):
+            bad = [d for d in ans.get("spec_detail", []) if d.get("hyp") and not d.get("ok")]
             fails.append(F("C", "%s: model run on the scripted learner does not meet the spec although the theorem's hypotheses hold: %s" % (
-                name, json.dumps(ans.get("expected"))[:300]), "C:roundtrip"))
+                name, json.dumps(bad)[:300]), "C:roundtrip"))
 
     # ---- shrinking
     def shrink(self, case):
